@@ -526,7 +526,7 @@ contract(FS, "Share.fetch", "C19", params=dict(P, field=STR, default=Opt(VAL)), 
 
 contract(FS, "Share.changeStore", "C19", params=dict(P, store=Opt(Ref("Store"))), externals=EXT,
          modifies=["self.store"], ensures=["self.store is store", NOSTAMP], replay=dict(make=_mk),
-         raises={"ValueError": ["self.store is old(self.store)"]},
+         raises={"ValueError": ["id(self.store) == old(id(self.store))"]},
          note="ValueError for an argument that is not a Store is reachable natively only (the parameter is typed)")
 
 PD = dict(self=Ref("Share"))
@@ -760,3 +760,130 @@ contract(FS, "Share.create", "C19", params=PKW, cases=KW_CASES, setup=_setup_kwa
                   "implies(grew(self, %s), %s)" % (SNAP, " and ".join("(%s)" % s_ for s_ in STAMPED)),
                   "implies(not grew(self, %s), %s)" % (SNAP, NOSTAMP)] + CR_AFTER,
          raises={"AttributeError": [INV, NOSTAMP]}, returns=Ref("Share"), replay=KW_REPLAY)
+
+
+# ================================================================================================ static obligations
+def _deck_aliases(repo):
+    """storing.Deck binds push to deque.append and pull to deque.popleft (class-level aliases: no FunctionDef)"""
+    import ast as _ast
+    got = {}
+    for alias in ("push", "pull"):
+        ca = repo.class_attr(FS, "Deck", alias)
+        if ca and isinstance(ca[1], _ast.Attribute) and isinstance(ca[1].value, _ast.Name):
+            got[alias] = "%s.%s" % (ca[1].value.id, ca[1].attr)
+        else:
+            got[alias] = None
+    ok = got == {"push": "deque.append", "pull": "deque.popleft"}
+    return ok, "Deck.push = %s, Deck.pull = %s" % (got["push"], got["pull"])
+
+
+REG.static_checks.append(("C19", "Deck.push is deque.append (add at the right) and Deck.pull is deque.popleft (take from "
+                                 "the left): FIFO", _deck_aliases))
+
+
+def _no_identifier_bypass(repo):
+    """Data.__setattr__ must not hand a name to object.__setattr__ without the identifier test: with the bypass, a
+    name that happens to be a class attribute of Data ('_change', '_sift', '_show', '__doc__', '__init__', ...) is
+    accepted although it is not a public identifier, is written into the dict storage only (not into the key
+    sequence), and '__dict__' / '__class__' raise TypeError instead of AttributeError"""
+    import ast as _ast
+    fn = repo.func(FS, "Data.__setattr__")
+    for n in _ast.walk(fn):
+        if isinstance(n, _ast.Try):
+            for st in n.orelse:
+                for c in _ast.walk(st):
+                    if isinstance(c, _ast.Call) and isinstance(c.func, _ast.Attribute) and c.func.attr == "__setattr__" \
+                            and isinstance(c.func.value, _ast.Call) and getattr(c.func.value.func, "id", "") == "super":
+                        return False, ("line %d: `super(Data,self).__setattr__(key,value)` is reached for every key "
+                                       "that names an existing class attribute, before any identifier test" % c.lineno)
+    return True, "no unguarded pass-through to object.__setattr__"
+
+
+REG.static_checks.append(("C19", "Data.__setattr__ applies the identifier rule to every name (no pass-through of names "
+                                 "that are class attributes of Data)", _no_identifier_bypass))
+
+
+# ================================================================================================ bounded stand-in
+# Data.__setattr__ on the REAL class, exhaustively over a stated finite scope (never counted as proved): all strings
+# of length <= 3 over the alphabet {a, _, 1, -, ' '} plus a list of tricky names.  Names that are class attributes
+# of Data are the subject of the static obligation above and are left out of this scope.
+_ALPHA = "a_1- "
+_TRICKY = ["value", "_value", "__x", "x_", "x1", "1x", "class", "None", "def", "a.b", "a b", "a\n", "\na", "a\t",
+           "é", "aé", "éa", "١", "a١", "A", "Z9_", "a" * 40, "", " ", "-", "é-"]
+
+
+def _bounded_scope():
+    import itertools
+    names = [""] + ["".join(t_) for n in (1, 2, 3) for t_ in itertools.product(_ALPHA, repeat=n)]
+    out = []
+    for s in names + _TRICKY:
+        if s not in out:
+            out.append(s)
+    return out
+
+
+BOUNDED_SCOPE = _bounded_scope()
+
+
+@specfunc
+def setattr_rule(E, data, key, value, _snap=None):
+    return True
+
+
+@specfunc
+def data_snap(E, data):
+    return None
+
+
+def _n_data_snap(data):
+    d = data.__dict__
+    return {"keys": list(d._keys), "store": dict(dict.items(d))}
+
+
+def _n_setattr_ok(data, key, value, snap):
+    """accepted: the name is a public identifier (or was a field already) and the record is the entry record with
+    key -> value (replaced in place / appended)"""
+    if not (key in snap["store"] or (key.isidentifier() and not key.startswith("_"))):
+        return False
+    keys = list(snap["keys"]) + ([] if key in snap["store"] else [key])
+    store = dict(snap["store"])
+    store[key] = value
+    return _n_data_snap(data) == {"keys": keys, "store": store}
+
+
+def _n_setattr_rejected(data, key, snap):
+    """rejected: the name is not an ordinary ASCII identifier [a-zA-Z][a-zA-Z0-9_]* and nothing changed"""
+    return not ORDINARY.match(key) and key not in snap["store"] and _n_data_snap(data) == snap
+
+
+setattr_rule.native = _n_setattr_ok
+data_snap.native = _n_data_snap
+
+
+@specfunc
+def setattr_rejected(E, data, key, _snap=None):
+    return True
+
+
+setattr_rejected.native = _n_setattr_rejected
+
+
+def _mk_bounded(rng, i, cex, nr):
+    import importlib
+    storing = importlib.import_module("ioflo.base.storing")
+    key = BOUNDED_SCOPE[i % len(BOUNDED_SCOPE)]
+    pre = [("a", 1)] if (i // len(BOUNDED_SCOPE)) % 2 else []      # second sweep: a record that has the field 'a'
+    return {"self": storing.Data(pre), "key": key, "value": i}
+
+
+def _call_bounded(env, nr):
+    setattr(env["self"], env["key"], env["value"])
+
+
+contract(FS, "Data.__setattr__", "C19", params=dict(self=Ref("Data"), key=STR, value=VAL), verify=False,
+         ensures=["setattr_rule(self, key, value, old(data_snap(self)))"],
+         raises={"AttributeError": ["setattr_rejected(self, key, old(data_snap(self)))"]},
+         replay=dict(make=_mk_bounded, call=_call_bounded, count=2 * len(BOUNDED_SCOPE)),
+         note="BOUNDED stand-in, not a proof: the assumed record contract is run on the real class over %d names "
+              "(all strings of length <= 3 over {a,_,1,-,space} and %d tricky names), once on an empty record and "
+              "once on a record that has the field 'a'" % (len(BOUNDED_SCOPE), len(_TRICKY)))
